@@ -468,11 +468,18 @@ def gen_xcell(seed, tier):
     quota = 150 if tier == "quick" else 1500
     out = []
     for focus in ("waiters", "resolvers"):
-        # only the thread kinds whose frame cost the C20 cross-check model knows (resolver kinds 0..5, waiter kinds 0..4);
-        # kinds added to the Cell component later (unwinding destruction 1 6, co_await-promise resolver 1 7, call_fn waiter 2 5)
-        # are skipped here until the cost model carries them
+        # WHITELIST: only scenarios built entirely from thread kinds whose cost the C20 cross-check model carries
+        # (AllocDefs.cell_allocs: resolver kinds 0..7, waiter kinds 0..5, schedule line); anything else is skipped
         def known(c):
-            return all(not (o and ((o[0] == 1 and len(o) > 1 and o[1] >= 6) or (o[0] == 2 and len(o) > 1 and o[1] >= 5))) for o in c.ops)
+            for o in c.ops:
+                if not o: continue
+                if o[0] == 1 and len(o) == 3 and 0 <= o[1] <= 7: continue
+                if o[0] == 2 and len(o) == 2 and 0 <= o[1] <= 5: continue
+                if o[0] == 9: continue
+                return False
+            # at most three coroutine waiters: more can put a 4th handle into the resolver's suspend point (a documented
+            # allocation whose occurrence depends on the schedule: that is C20's sequential part, not this cross-check)
+            return sum(1 for o in c.ops if len(o) == 2 and o[0] == 2 and o[1] in (0, 4)) <= 3
         cs = [c for c in cellcommon.gen(seed, "quick" if tier == "quick" else "thorough", focus) if c.engine in m and known(c)]
         for c in cs[:quota]:
             out.append(Case(m[c.engine], "x" + focus[0] + c.name, c.ops))
@@ -482,6 +489,17 @@ def gen_xcell(seed, tier):
 def gen_xmutex(seed, tier):
     from props import mutexcommon
     cs = mutexcommon.gen(seed, "quick" if tier == "quick" else "thorough", "mutex")
+    # WHITELIST as in gen_xcell: contender declarations `1 kind (acq rel)*` with the kinds / styles AllocDefs.mutex_decl_allocs
+    # knows, and schedule lines; a malformed declaration is ignored by that harness and costs nothing in the model
+    def known(c):
+        for o in c.ops:
+            if not o: continue
+            if o[0] == 9: continue
+            if o[0] == 1 and len(o) >= 2 and o[1] in (0, 1) and all(0 <= a <= 1 for a in o[2::2]) and all(0 <= r <= 2 for r in o[3::2]): continue
+            if o[0] == 1 and (len(o) < 2 or (len(o) - 2) % 2): continue      # rejected by parse_decl: no thread at all
+            return False
+        return True
+    cs = [c for c in cs if c.engine == "mx" and known(c)]
     return [Case("alxm", "xm" + c.name, c.ops) for c in cs[:(200 if tier == "quick" else 2000)]]
 
 
